@@ -56,9 +56,10 @@ def install(it):
 
             def deco(it, b, kw2):
                 f = b[0]
-                it.proofs.append(ProofDecl(prop, name or f.name, f,
-                                           list(targets), list(assumes),
-                                           note))
+                d = ProofDecl(prop, name or f.name, f, list(targets),
+                              list(assumes), note)
+                d.native = kw.get('native', True)
+                it.proofs.append(d)
                 return f
             return I.Builtin('proof-decorator', deco)
 
@@ -298,6 +299,9 @@ def install(it):
             flags = a[1] if len(a) > 1 else kw.get('flags', 0)
             mode = a[2] if len(a) > 2 else kw.get('mode', 'full')
             if not isinstance(pattern, str):
+                import re as _re
+                if not flags:
+                    flags = it.getattr(pattern, 'flags') & ~int(_re.UNICODE)
                 pattern = it.getattr(pattern, 'pattern')
             return regex.Lang(pattern, int(flags), mode)
 
